@@ -585,6 +585,8 @@ impl Compress {
     fn indirections(packet: &[u8], mut offset: usize) -> usize {
         let mut indirections = 0;
         loop {
+            #[cfg(dnssector_verif)]
+            crate::verif::tick(crate::verif::SITE_COMPRESS_NAME);
             match packet[offset] as usize {
                 0 => return indirections,
                 len if len & 0xc0 == 0xc0 => {
